@@ -422,11 +422,40 @@ def index_analysis(prog, pt):
     for f in funcs:
         entry = {('param', i): v for (fn_, i), v in params.items() if fn_ == f.name}
         an = absint.Analyzer(prog, f, entry_state=entry, call_summary=summ, field_summary=fs, havoc_fields_on_call=False)
+        # local pointers into a constant table: p = &G[e]  (offset e evaluated where p is defined)
+        ptrs = {}
+        for b, i, s in an.cf.positions():
+            for n in sx.walk(s):
+                if n[0] == 'assign' and sx.kind(n[1]) == 'local':
+                    r = sx.strip(n[2])
+                    if sx.kind(r) == 'addr' and sx.kind(sx.strip(r[1])) == 'idx' and sx.kind(sx.strip(sx.strip(r[1])[1])) == 'global':
+                        gname = sx.strip(sx.strip(r[1])[1])[1]
+                        g_ = prog.globals.get(gname)
+                        st_ = an.state_before_node(b, i, n)
+                        if g_ and g_.get('const') and g_.get('dims') and len(g_['dims']) == 1 and st_ is not None:
+                            off = an.ev(sx.strip(r[1])[2], st_)
+                            old_ = ptrs.get(n[1][2])
+                            ptrs[n[1][2]] = (gname, absint.join(old_[1], off) if old_ and old_[0] == gname else off) if (old_ is None or old_[0] == gname) else ('?', absint.TOP)
+                    elif n[1][2] in ptrs:
+                        ptrs[n[1][2]] = ('?', absint.TOP)
         for b, i, s in an.cf.positions():
             for n in sx.walk(s):
                 if n[0] != 'idx':
                     continue
                 base = sx.strip(n[1])
+                if sx.kind(base) == 'local' and base[2] in ptrs and ptrs[base[2]][0] != '?':
+                    gname, off = ptrs[base[2]]
+                    st = an.state_before_node(b, i, n)
+                    if st is None:
+                        continue
+                    v = absint.add(off, an.ev(n[2], st))
+                    dim = prog.globals[gname]['dims'][0]
+                    proved = absint.lo(v) >= 0 and absint.hi(v) < dim
+                    k = (f.name, gname, 'via %s: %s' % (base[1], sx.show(n[2])[:40]))
+                    old = res.get(k)
+                    if old is None or (old[2] and not proved):
+                        res[k] = (dim, v, proved, '%s:%s' % (f.file, sx.line(n) or f.line))
+                    continue
                 if sx.kind(base) != 'global':
                     continue
                 g = prog.globals.get(base[1])
